@@ -12,8 +12,9 @@
     * `configure` replaces the project (and leaves the old one when the constructor raises);
     * `self.project` missing -> AttributeError inside `process` -> reported, not fatal;
     * `nstr(source)` (bytes -> str), `tuple(position)`, `[r[:4] for r in lint(...)]`.
-  Every other call shape (unknown name, wrong arity, keyword arguments, a position that is
-  not a list, undecodable bytes) goes to `Lib.other`, which may do anything CPython does for it.
+    * CPython's binding of positional and keyword arguments to the methods' parameters.
+  Every other call (unknown name, binding failure, a position that is not a list,
+  undecodable bytes) goes to `Lib.other`, which may do anything CPython does for it.
 -/
 import SuppModel.Rpc.Model
 
@@ -55,21 +56,58 @@ def asTuple : Value → Option Value
 /-- `[r[:4] for r in result]` -/
 def trim4 (rs : List (List Value)) : Value := .arr (rs.map (fun r => .tup (r.take 4)))
 
+/-- `self.project = Project(...)`: a constructor that raises leaves the old project (if any) -/
+def afterConfigure {ω} (hasProject : Bool) : ω × Option (Value × Value) → (ω × Bool) × ApiResult
+  | (w', none) => ((w', true), .ok .nil)
+  | (w', some (c, m)) => ((w', hasProject), .raised c m)
+
+/-- `return [r[:4] for r in linter.lint(...)]` -/
+def afterLint {ω} (hasProject : Bool) : ω × Except (Value × Value) (List (List Value)) → (ω × Bool) × ApiResult
+  | (w', .ok rs) => ((w', hasProject), .ok (trim4 rs))
+  | (w', .error (c, m)) => ((w', hasProject), .raised c m)
+
+/-! ### CPython's argument binding for a method `def m(self, p1, ..., pn=default)` -/
+
+def pSource : Bytes := [115, 111, 117, 114, 99, 101]
+def pPosition : Bytes := [112, 111, 115, 105, 116, 105, 111, 110]
+def pFilename : Bytes := [102, 105, 108, 101, 110, 97, 109, 101]
+def pSyntaxOnly : Bytes := [115, 121, 110, 116, 97, 120, 95, 111, 110, 108, 121]
+def pConfig : Bytes := [99, 111, 110, 102, 105, 103]
+
+def lookupKw : List (Value × Value) → Bytes → Option Value
+  | [], _ => none
+  | (.str k, v) :: rest, p => if k == p then some v else lookupKw rest p
+  | _ :: rest, p => lookupKw rest p
+
+/-- the parameters not given positionally: keyword argument, else default, else binding fails -/
+def fillRest : List (Bytes × Option Value) → List (Value × Value) → Option (List Value)
+  | [], _ => some []
+  | (p, d) :: ps, kw =>
+    match (match lookupKw kw p with | some v => some v | none => d), fillRest ps kw with
+    | some v, some vs => some (v :: vs)
+    | _, _ => none
+
+/-- `none` = TypeError (too many positionals, unknown / duplicate / non-string keyword, missing argument) -/
+def bindArgs (params : List (Bytes × Option Value)) (as : List Value) (kw : List (Value × Value)) :
+    Option (List Value) :=
+  if as.length > params.length then none
+  else if !(kw.all (fun kv => match kv.1 with
+      | .str s => (params.drop as.length).any (fun p => p.1 == s)
+      | _ => false)) then none
+  else (fillRest (params.drop as.length) kw).map (as ++ ·)
+
 /-- `getattr(self, name)(*args, **kwargs)` for `self : Server` -/
 def serverApply {ω} (lib : Lib ω) (st : ω × Bool) (name args kwargs : Value) : (ω × Bool) × ApiResult :=
   let (w, hasProject) := st
   match name, args, kwargs with
-  | .str n, .arr as, .map [] =>
+  | .str n, .arr as, .map kw =>
     if n == sConfigure then
-      match as with
-      | [cfg] =>
-        match lib.newProject w cfg with
-        | (w', none) => ((w', true), .ok .nil)                     -- `self.project = Project(...)`
-        | (w', some (c, m)) => ((w', hasProject), .raised c m)     -- old project (if any) stays
+      match bindArgs [(pConfig, none)] as kw with
+      | some [cfg] => afterConfigure hasProject (lib.newProject w cfg)
       | _ => lib.other st name args kwargs
     else if n == sAssist || n == sLocation then
-      match as with
-      | [s, p, f] =>
+      match bindArgs [(pSource, none), (pPosition, none), (pFilename, none)] as kw with
+      | some [s, p, f] =>
         if !hasProject then
           let (w', r) := lib.noProject w
           ((w', hasProject), r)
@@ -81,24 +119,19 @@ def serverApply {ω} (lib : Lib ω) (st : ω × Bool) (name args kwargs : Value)
           | _, _ => lib.other st name args kwargs
       | _ => lib.other st name args kwargs
     else if n == sLint then
-      let go (s f : Value) : (ω × Bool) × ApiResult :=
+      match bindArgs [(pSource, none), (pFilename, none), (pSyntaxOnly, some (.bool false))] as kw with
+      | some [s, f, _syntaxOnly] =>                                  -- `syntax_only` is ignored by the server
         if !hasProject then
           let (w', r) := lib.noProject w
           ((w', hasProject), r)
         else
           match nstr s with
-          | some s' =>
-            match lib.lint w s' f with
-            | (w', .ok rs) => ((w', hasProject), .ok (trim4 rs))
-            | (w', .error (c, m)) => ((w', hasProject), .raised c m)
+          | some s' => afterLint hasProject (lib.lint w s' f)
           | none => lib.other st name args kwargs
-      match as with
-      | [s, f] => go s f
-      | [s, f, _syntaxOnly] => go s f                               -- `syntax_only` is ignored by the server
       | _ => lib.other st name args kwargs
     else if n == sEval then
-      match as with
-      | [s] =>
+      match bindArgs [(pSource, none)] as kw with
+      | some [s] =>
         match nstr s with
         | some s' =>
           let (w', r) := lib.eval w s'
